@@ -27,6 +27,8 @@ def _match(kf, sig, case):
     fn = getattr(kf_matchers, kf["matcher"], None)
     if fn is None:
         return False
+    if kf.get("id") in (os.environ.get("VERIF_KF_AUDIT") or "").split(","):
+        return False  # matcher audit: show what this entry would absorb (never set by a registered command)
     try:
         return bool(fn(sig, case))
     except Exception:
